@@ -7,7 +7,6 @@ import (
 	"time"
 
 	fdo "github.com/fido-device-onboard/go-fdo"
-	"github.com/fido-device-onboard/go-fdo/cbor"
 	"github.com/fido-device-onboard/go-fdo/protocol"
 
 	"verif/harness/internal/lab"
@@ -24,18 +23,16 @@ func c07NoDeviceCert(x *runCtx, k lab.Kind, enc protocol.KeyEncoding) {
 	if err != nil {
 		fatal("DI: %v", err)
 	}
+	if err := w.Extend(ctx, d.Cred.GUID, k, "mfg", "own1", enc == protocol.X5ChainKeyEnc); err != nil {
+		fatal("extend: %v", err)
+	}
 	ov, err := st.RemoveVoucher(ctx, d.Cred.GUID)
 	if err != nil {
 		fatal("voucher: %v", err)
 	}
-	hdr := ov.Header.Val
-	hdr.CertChainHash = nil
-	bare := &fdo.Voucher{Version: ov.Version, Header: *cbor.NewBstr(hdr), Hmac: ov.Hmac}
-	ext, err := lab.ExtendTo(bare, k, "mfg", "own1", enc == protocol.X5ChainKeyEnc)
-	if err != nil {
-		fatal("extend: %v", err)
-	}
-	if err := st.AddVoucher(ctx, ext); err != nil {
+	// the entries (all the rendezvous server verifies) stay valid; the certificate chain is simply not there
+	ov.CertChain = nil
+	if err := st.AddVoucher(ctx, ov); err != nil {
 		fatal("store: %v", err)
 	}
 	dns := "owner.lab"
